@@ -406,7 +406,7 @@ func checkC01(c *lib.Ctx) {
 				ml.add(fmt.Sprintf("xfer.plan %d %d %d", cs.Cfg.MP, cs.Off, cs.Len), xfPlanText(xfDataReqs(out.Log, e.Typ)))
 			}
 		}
-		if model.ReadAt && cs.API == "ReadAt" && cs.ShortCap == 0 {
+		if model.ReadAt && cs.API == "ReadAt" && cs.ShortCap == 0 && cs.FileLen <= 150000 && cs.Len <= 150000 { // (the model works on byte lists; MB-sized cases take seconds)
 			ml.add(fmt.Sprintf("xfer.readat %s %d %d %d -", model.cfgToken(cs.Cfg, xfMaxTx(cs.Srv)), cs.FileLen, cs.Off, cs.Len),
 				fmt.Sprintf("%d %s %d", out.N, xfErrClass(out.Err), xfHash(out.Data)))
 		}
